@@ -501,7 +501,7 @@ package mcp
 //@   requires status(w) == 0
 //@   ensures[C03,C06 every-request-gets-a-status] status(w) != 0
 //@   ensures[C03,C06 wrong-path-is-404] !(h.serverPath == "" || old(r.URL.Path) == h.serverPath) ==> status(w) == 404
-//@   ensures[C03,C04 unknown-verb-or-disabled-listening-stream-is-405] (h.serverPath == "" || old(r.URL.Path) == h.serverPath) && old(r.Method) != "POST" && old(r.Method) != "DELETE" && (old(r.Method) != "GET" || !h.enableGetSSE) ==> status(w) == 405
+//@   ensures[C03,C04,C06 unknown-verb-or-disabled-listening-stream-is-405] (h.serverPath == "" || old(r.URL.Path) == h.serverPath) && old(r.Method) != "POST" && old(r.Method) != "DELETE" && (old(r.Method) != "GET" || !h.enableGetSSE) ==> status(w) == 405
 //@ func httpServerHandler.handlePost
 //@   requires status(w) == 0
 //@   ensures[C03,C06 every-post-gets-a-status] status(w) != 0
@@ -1319,13 +1319,13 @@ package mcp
 //@ func toolManager.handleCallTool
 //@   before call Sprintf#3 assert[C02 the-handlers-error-is-an-operand-of-the-message] len(arg1) == 2 && arg1[1] == asany(err)
 //@   before call return#0 assert[C02,C01 the-handlers-result-is-the-answer] isnil(err) && toolcalls == old(toolcalls) + 1 ==> ret == asany(result)
-//@   before call return#0 assert[C02 a-handler-error-is-answered-with-that-message] !isnil(err) && errMsg != "" ==> istype(ret, *JSONRPCError) && ret.(*JSONRPCError) != nil && ret.(*JSONRPCError).Error.Message == errMsg && ret.(*JSONRPCError).ID == req.ID
+//@   before call return#0 assert[C02,C03 a-handler-error-is-answered-with-that-message] !isnil(err) && errMsg != "" ==> istype(ret, *JSONRPCError) && ret.(*JSONRPCError) != nil && ret.(*JSONRPCError).Error.Code == ErrCodeInternal && ret.(*JSONRPCError).Error.Message == errMsg && ret.(*JSONRPCError).ID == req.ID
 //@
 //@ func promptManager.handleGetPrompt
-//@   before call return#0 assert[C02 a-handler-error-is-answered-with-that-message] !isnil(err) ==> istype(ret, *JSONRPCError) && ret.(*JSONRPCError) != nil && ret.(*JSONRPCError).Error.Message == err.Error() && ret.(*JSONRPCError).ID == req.ID
+//@   before call return#0 assert[C02,C03 a-handler-error-is-answered-with-that-message] !isnil(err) ==> istype(ret, *JSONRPCError) && ret.(*JSONRPCError) != nil && ret.(*JSONRPCError).Error.Code == ErrCodeInternal && ret.(*JSONRPCError).Error.Message == err.Error() && ret.(*JSONRPCError).ID == req.ID
 //@
 //@ func resourceManager.handleReadResource
-//@   before call return#0 assert[C02 a-handler-error-is-answered-with-that-message] !isnil(err) ==> istype(ret, *JSONRPCError) && ret.(*JSONRPCError) != nil && ret.(*JSONRPCError).Error.Message == err.Error() && ret.(*JSONRPCError).ID == req.ID
+//@   before call return#0 assert[C02,C03 a-handler-error-is-answered-with-that-message] !isnil(err) ==> istype(ret, *JSONRPCError) && ret.(*JSONRPCError) != nil && ret.(*JSONRPCError).Error.Code == ErrCodeInternal && ret.(*JSONRPCError).Error.Message == err.Error() && ret.(*JSONRPCError).ID == req.ID
 //@   before call return#0 assert[C02 the-handlers-contents-are-the-result] isnil(err) && istype(ret, ReadResourceResult) ==> same(ret.(ReadResourceResult).Contents, contents)
 //@
 // ---- second measurement round (ids -4): general facts behind the misses ----
@@ -2060,9 +2060,67 @@ package mcp
 // C03 / C02 — the structured content of a typed result is the handler's output itself (an output that cannot be
 // encoded must fail where the response is encoded, not be replaced before)
 //@ func NewTypedToolHandler$1
-//@   before call return#3 assert[C03,C02 the-structured-content-of-a-typed-result-is-the-handlers-output] ret0 != nil && !ret0.IsError && ret0.StructuredContent == asany(output)
+//@   before call return#0 assert[C03,C02 the-structured-content-of-a-typed-result-is-the-handlers-output] ret0 != nil && !ret0.IsError ==> ret0.StructuredContent == asany(output)
 //@ func NewStructuredToolHandler$1
-//@   before call return#2 assert[C03,C02 the-structured-content-of-a-typed-result-is-the-handlers-output] ret0 != nil && !ret0.IsError && ret0.StructuredContent == asany(output)
+//@   before call return#0 assert[C03,C02 the-structured-content-of-a-typed-result-is-the-handlers-output] ret0 != nil && !ret0.IsError ==> ret0.StructuredContent == asany(output)
+//@
+// C04 / C05 — the server reports exactly the sessions its transport lists (no second notion of 'active')
+//@ ghost lastlisted []string
+//@ func httpServerHandler.getActiveSessions
+//@   records lastlisted ret0
+//@ func Server.getActiveSessions
+//@   ensures[C04,C05 the-server-reports-exactly-the-sessions-its-transport-lists] ret1 == nil ==> same(ret0, lastlisted)
+//@
+// C09 — the stdio client encodes every frame holding the request lock exclusively (two senders never share the pipe)
+//@ func stdioClientTransport.sendRequest
+//@   before call Encode#1 assert[C09,C20 frame-encoded-under-the-exclusive-request-lock] held(t.requestMutex) == 2
+//@ func stdioClientTransport.sendNotification
+//@   before call Encode#1 assert[C09,C20 frame-encoded-under-the-exclusive-request-lock] held(t.requestMutex) == 2
+//@ func stdioClientTransport.sendResponse
+//@   before call Encode#1 assert[C09,C20 frame-encoded-under-the-exclusive-request-lock] held(t.requestMutex) == 2
+//@
+// C08 / C06 — the legacy SSE stream handler also waits for the request's own context: a context function may hand back
+// a context that does not end with the request, and the peer's leaving must still end the stream and free its session
+//@ func SSEServer.handleSSE
+//@   before call Done#2 assert[C08,C06,C04 the-stream-handler-also-waits-for-the-requests-own-context] arg0 == r.Context()
+//@
+// C14 / C12 — every server kind hands a non-empty unregistration to the registry as it is (the names that exist go)
+//@ ghost stable toolunregs int
+//@ func toolManager.unregisterTools
+//@   counted toolunregs
+//@ func Server.UnregisterTools
+//@   ensures[C14,C12 every-server-kind-hands-an-unregistration-to-the-registry] len(names) > 0 ==> toolunregs == old(toolunregs) + 1
+//@ func SSEServer.UnregisterTools
+//@   ensures[C14,C12 every-server-kind-hands-an-unregistration-to-the-registry] len(names) > 0 ==> toolunregs == old(toolunregs) + 1
+//@ func StdioServer.UnregisterTools
+//@   ensures[C14,C12 every-server-kind-hands-an-unregistration-to-the-registry] len(names) > 0 ==> toolunregs == old(toolunregs) + 1
+//@
+// C12 — a resource template is registered under its name: a name already present is refused, a new one is installed
+//@ func resourceManager.registerTemplate
+//@   ensures[C12 a-template-is-registered-under-its-name] result == nil ==> template != nil && (template.Name in m.templates) && m.templates[template.Name] != nil && m.templates[template.Name].resourceTemplate == template
+//@   ensures[C12 a-registered-template-name-is-refused] template != nil && atlock(template.Name in m.templates) ==> result != nil
+//@
+// C20 / C16 — the capability map a client announces is filled at construction only: Initialize hands the same map to
+// the encoder without a lock, so nothing may write into it afterwards
+//@ type Client
+//@   private[C20,C16] capabilities writers NewClient
+//@ type StdioClient
+//@   private[C20,C16] capabilities writers NewStdioClient, WithStdioCapabilities
+//@
+// C19 — the legacy SSE client: a configured path replaces the path of the server URL (as on the Streamable client), and
+// the transport is built on that same URL object
+//@ func NewSSEClient
+//@   before call NewClient#1 assert[C19 a-configured-path-replaces-the-path-of-the-server-url] config.serverURL == parsedURL && (config.path != "" ==> parsedURL.Path == config.path)
+//@
+// C01 — legacy SSE client: only a non-2xx acknowledgement of a posted request fails the call (its answer arrives on the
+// stream whatever 2xx code the peer acknowledges with)
+//@ func sseClientTransport.sendRequestInternal
+//@   before call ReadAll#1 assert[C01,C14 only-a-non-2xx-acknowledgement-fails-the-call] resp.StatusCode < 200 || resp.StatusCode >= 300
+//@
+// C15 / C13 / C20 — every ping gets a result object of its own (a result-modifying middleware must not see the marks of
+// an earlier request)
+//@ func mcpHandler.handlePing
+//@   ensures[C15,C13,C20 every-ping-gets-a-result-of-its-own] ret1 == nil && istype(ret0, map[string]interface{}) && isfresh(ret0.(map[string]interface{}))
 //@
 // C09 — the stdio client's frames go out through its encoder only (one Encode per message)
 //@ sweepscope[C09] kinds=framedoutput files=transport_stdio.go,stdio_client.go
